@@ -155,7 +155,9 @@ TPosterior ==
                         PO_LogwRows |-> o.logwRowsOK,
                         PO_Weights |-> o.nonneg /\ o.sumOne,
                         PO_Uniform |-> o.resample => o.uniform,
-                        PO_BlobsOnlyIfAsked |-> o.arityOK]))
+                        PO_BlobsOnlyIfAsked |-> o.arityOK,
+                        \* trimmed importance weights keep at least the requested fraction of the untrimmed ESS
+                        PO_TrimESS |-> o.trimEssOK]))
 
 \* checkpoint save bracket (no PSRun state change: saving must not alter the run)
 TSaveBegin == IsEvent("SaveBegin") /\ UNCHANGED vars /\ StepS(Failing([SV_NotNested |-> ~saving]), TRUE)
